@@ -14,6 +14,7 @@ import (
 	"os/exec"
 	"runtime"
 	"runtime/debug"
+	"sort"
 	"strings"
 	"sync"
 	"syscall"
@@ -62,7 +63,14 @@ func hostileWorker(args []string) error {
 	out := fs.String("out", "", "outcome file (appended)")
 	asGiB := fs.Uint64("as", 12, "address space limit in GiB")
 	deadline := fs.Duration("deadline", 20*time.Second, "per-input deadline")
+	skip := fs.String("skip", "", "signatures (entry point|source kind|record|field|kind, separated by ;) whose cases are not run any more")
 	fs.Parse(args)
+	skipSigs := map[string]bool{}
+	for _, sg := range strings.Split(*skip, ";") {
+		if sg != "" {
+			skipSigs[sg] = true
+		}
+	}
 	lim := syscall.Rlimit{Cur: *asGiB << 30, Max: *asGiB << 30}
 	_ = syscall.Setrlimit(syscall.RLIMIT_AS, &lim)
 	debug.SetGCPercent(25)
@@ -107,6 +115,11 @@ func hostileWorker(args []string) error {
 		var c hcase
 		if err := json.Unmarshal(sc.Bytes(), &c); err != nil {
 			return err
+		}
+		if skipSigs[sigOf(&c)] {
+			b, _ := json.Marshal(houtcome{I: c.I, Class: "unconfirmed", Where: "not run: three inputs of this signature overran their deadline already"})
+			fmt.Fprintf(of, "DONE %s\n", b)
+			continue
 		}
 		fmt.Fprintf(of, "START %d\n", c.I)
 		mu.Lock()
@@ -510,12 +523,46 @@ func hrun(args []string) error {
 // up to two live buffers at once, which must not be mistaken for a crash: brun raises the cap.
 var casesASGiB uint64 = 12
 
+// casesDeadline is the per-input CPU deadline of the first pass (the confirmation pass has 120 s).
+var casesDeadline = "20s"
+
+// sigOf groups the cases of a plan: when three inputs of one group have overrun their deadline, the rest of the group is
+// not run (a change that makes a whole group hang would otherwise cost its deadline per input).
+func sigOf(c *hcase) string {
+	return fmt.Sprintf("%s|%v|%s|%s|%s", c.EP, c.Seek, c.Rec, c.Fld, c.Kind)
+}
+
 func runCases(casesPath string, n int, dirv string, workersv int) []*houtcome {
 	dir, workers := &dirv, &workersv
 	self, _ := os.Executable()
 	outcomes := make([]*houtcome, n)
 	var wg sync.WaitGroup
 	var mu sync.Mutex
+	var cases []hcase
+	if cf, err := os.Open(casesPath); err == nil {
+		sc := bufio.NewScanner(cf)
+		sc.Buffer(make([]byte, 1<<20), 1<<28)
+		for sc.Scan() {
+			var c hcase
+			json.Unmarshal(sc.Bytes(), &c)
+			c.Data = nil
+			cases = append(cases, c)
+		}
+		cf.Close()
+	}
+	overruns := map[string]int{}
+	skipList := func() string {
+		mu.Lock()
+		defer mu.Unlock()
+		var l []string
+		for sg, k := range overruns {
+			if k >= 3 {
+				l = append(l, sg)
+			}
+		}
+		sort.Strings(l)
+		return strings.Join(l, ";")
+	}
 	per := (n + *workers - 1) / *workers
 	for k := 0; k < *workers; k++ {
 		from, to := k*per, (k+1)*per
@@ -532,7 +579,7 @@ func runCases(casesPath string, n int, dirv string, workersv int) []*houtcome {
 			os.Remove(of)
 			next := from
 			for next < to {
-				cmd := exec.Command(self, "hostile-worker", "-cases", casesPath, "-from", fmt.Sprint(next), "-to", fmt.Sprint(to), "-out", of, "-as", fmt.Sprint(casesASGiB))
+				cmd := exec.Command(self, "hostile-worker", "-cases", casesPath, "-from", fmt.Sprint(next), "-to", fmt.Sprint(to), "-out", of, "-as", fmt.Sprint(casesASGiB), "-deadline", casesDeadline, "-skip", skipList())
 				var stderr bytes.Buffer
 				cmd.Stderr = &stderr
 				err := cmd.Run()
@@ -581,6 +628,9 @@ func runCases(casesPath string, n int, dirv string, workersv int) []*houtcome {
 				if started < n {
 					mu.Lock()
 					outcomes[started] = &houtcome{I: started, Class: class, Where: where + " | " + firstMcapFrame(es)}
+					if class == "timeout" && started < len(cases) {
+						overruns[sigOf(&cases[started])]++
+					}
 					mu.Unlock()
 				}
 				next = started + 1
@@ -591,7 +641,7 @@ func runCases(casesPath string, n int, dirv string, workersv int) []*houtcome {
 	}
 	wg.Wait()
 	// a deadline overrun, OOM or fatal error seen under 16-fold parallel load is confirmed by running the case on its own
-	// (four at a time) with a deadline of 120 s of CPU time: the slowest legitimate cases (multi-GiB buffers requested and zeroed
+	// (six at a time) with a deadline of 120 s of CPU time: the slowest legitimate cases (multi-GiB buffers requested and zeroed
 	// before the data turns out to be missing) take 5-15 s of CPU, several times that when the machine is oversubscribed.
 	// A change that makes hundreds of cases hang would otherwise cost 120 s each: the first confirmations
 	// of a signature (class, entry point, source kind, record, field, kind) are run, the remaining cases of that signature
@@ -599,35 +649,22 @@ func runCases(casesPath string, n int, dirv string, workersv int) []*houtcome {
 	type job struct{ i int }
 	var jobs []job
 	seen := map[string]int{}
-	var cases []hcase
-	if cf, err := os.Open(casesPath); err == nil {
-		sc := bufio.NewScanner(cf)
-		sc.Buffer(make([]byte, 1<<20), 1<<28)
-		for sc.Scan() {
-			var c hcase
-			json.Unmarshal(sc.Bytes(), &c)
-			c.Data = nil
-			cases = append(cases, c)
-		}
-		cf.Close()
-	}
 	for i, oc := range outcomes {
 		if oc == nil || (oc.Class != "timeout" && oc.Class != "oom" && oc.Class != "fatal" && oc.Class != "killed") {
 			continue
 		}
 		key := oc.Class
 		if i < len(cases) {
-			c := cases[i]
-			key = fmt.Sprintf("%s|%s|%v|%s|%s|%s", oc.Class, c.EP, c.Seek, c.Rec, c.Fld, c.Kind)
+			key = oc.Class + "|" + sigOf(&cases[i])
 		}
 		seen[key]++
-		if seen[key] > 3 && len(jobs) >= 24 {
+		if seen[key] > 1 && len(jobs) >= 24 {
 			outcomes[i] = &houtcome{I: i, Class: "unconfirmed", Where: oc.Class + " under load, not re-run: " + oc.Where}
 			continue
 		}
 		jobs = append(jobs, job{i})
 	}
-	sem := make(chan struct{}, 4)
+	sem := make(chan struct{}, 6)
 	for _, j := range jobs {
 		wg.Add(1)
 		sem <- struct{}{}
